@@ -149,7 +149,7 @@ let () =
              if not (setup_ok k o) then raise Setup;
              let words = List.map str_of_string !argv in
              (match (if !pinned then eval_pinned else eval) k o c words with
-              | Ok st -> Printf.printf "%s ok %s=%s ## - cnt=%d\n" id slot (show st.c_val) (int_of_z st.c_cnt)
+              | Ok st -> Printf.printf "%s ok %s=%s ## - | -\n" id slot (show st.c_val)
               | Err e -> Printf.printf "%s err ## %s\n" id (err_name e)
               | Fault _ -> Printf.printf "%s FAULT ## fault\n" id)
            with
